@@ -100,6 +100,7 @@ TARGETS = [
     ("Datum", "replace_if_older_than", "g_datum_replace_if_older_than"),
     ("Datum<Command>", "try_from", "g_tdata_to_command"), ("Datum<State>", "try_from", "g_tdata_to_state"),
     ("Time", "get", "g_time_get"),
+    ("PositionDerivative#MotionProfilePiece", "try_from", "g_piece_to_pd"),
     ("EWMAStream", "get", "g_ewma_get"), ("EWMAStream<Quantity>", "get", "g_ewma_q_get"),
     ("MovingAverageStream", "get", "g_ma_get"), ("MovingAverageStream<Quantity>", "get", "g_ma_q_get"),
     ("DerivativeStream", "get", "g_deriv_get"), ("IntegralStream", "get", "g_integ_get"),
